@@ -18,7 +18,7 @@ import (
 var rec = vh.NewRecorder("C16", "close-propagation",
 	"histories of 1-20 bridged connections through the tcp-bridge-frontend/-backend binaries, each with a closer (client or server), byte "+
 		"counts in both directions (0..200000), a close mode {clean: the closer has read everything sent to it and the far side is quiescent, "+
-		"then writes its data and closes at once; dirty: the closer closes while the far side is still writing towards it; dirty-quiet: the closer closes with unread input (so its close is a reset) while the far side stays silent; target-down: the bridge's target port is closed; both: both ends "+
+		"then writes its data (up to 6 MiB, with the far peer reading late and slowly in a third of these) and closes at once; dirty: the closer closes while the far side is still writing towards it; dirty-quiet: the closer closes with unread input (so its close is a reset) while the far side stays silent; target-down: the bridge's target port is closed; both: both ends "+
 		"close at nearly the same time} and start offsets; oracle: the far peer observes end-of-stream (EOF or reset) within 5 s of the "+
 		"close, for clean closes after reading exactly the bytes sent before it, and the file-descriptor count of both bridge processes "+
 		"returns to its baseline once all endpoints are closed (nothing outlives both endpoints); non-trivial = a clean close preceded by "+
@@ -32,6 +32,10 @@ type Conn struct {
 	ToFar   int    `json:"closer_to_far_bytes"`
 	ToClose int    `json:"far_to_closer_bytes"`
 	StartMs int    `json:"start_ms"`
+	// clean mode only: the far peer starts reading FarDelayMs after the close and pauses FarPauseUs after every read of
+	// up to 32 KiB, so that the bridge still holds undelivered data when it learns of the close
+	FarDelayMs int `json:"far_read_delay_ms,omitempty"`
+	FarPauseUs int `json:"far_read_pause_us,omitempty"`
 }
 
 type Case struct {
@@ -49,6 +53,12 @@ func genCase(t *rapid.T) Case {
 			ToClose: rapid.SampledFrom([]int{0, 1, 100, 1024, 50000}).Draw(t, "toCloser"),
 			StartMs: rapid.SampledFrom([]int{0, 0, 1, 5, 20}).Draw(t, "start"),
 		})
+		cn := &c.Conns[len(c.Conns)-1]
+		if cn.Mode == "clean" && rapid.IntRange(0, 2).Draw(t, "slowFar") == 0 {
+			cn.ToFar = rapid.SampledFrom([]int{200000, 1 << 20, 2 << 20, 6 << 20}).Draw(t, "bigToFar")
+			cn.FarDelayMs = rapid.SampledFrom([]int{0, 100, 400}).Draw(t, "farDelay")
+			cn.FarPauseUs = rapid.SampledFrom([]int{500, 2000, 5000}).Draw(t, "farPause")
+		}
 	}
 	return c
 }
@@ -143,12 +153,20 @@ const eosBound = 5 * time.Second
 
 // readUntilEOS reads until end-of-stream; it reports the bytes read and whether the stream ended in time.
 func readUntilEOS(c net.Conn, bound time.Duration) (got []byte, ended bool, err error) {
+	return readSlowlyUntilEOS(c, bound, 0)
+}
+
+// readSlowlyUntilEOS pauses after every read (a receiver that is slower than the bridge).
+func readSlowlyUntilEOS(c net.Conn, bound time.Duration, pause time.Duration) (got []byte, ended bool, err error) {
 	c.SetReadDeadline(time.Now().Add(bound))
 	var b bytes.Buffer
 	buf := make([]byte, 32768)
 	for {
 		n, e := c.Read(buf)
 		b.Write(buf[:n])
+		if pause > 0 && e == nil {
+			time.Sleep(pause)
+		}
 		if e != nil {
 			if vh.IsTimeout(e) {
 				return b.Bytes(), false, e
@@ -224,12 +242,15 @@ func runConn(r *rig, i int, cn Conn) (err error, timedOut bool) {
 		}
 		closer.Close()
 		// 3. the far peer must read exactly those bytes and then end-of-stream
-		gotFar, ended, e := readUntilEOS(far, eosBound+time.Duration(cn.ToFar/50000)*time.Second)
+		if cn.FarDelayMs > 0 {
+			time.Sleep(time.Duration(cn.FarDelayMs) * time.Millisecond)
+		}
+		gotFar, ended, e := readSlowlyUntilEOS(far, eosBound+time.Duration(cn.ToFar/50000)*time.Second, time.Duration(cn.FarPauseUs)*time.Microsecond)
 		if !ended {
 			return fmt.Errorf("connection %d: %s closed after writing %d bytes; the other peer read %d bytes and saw no end-of-stream within %v (clean close)", i, cn.Closer, len(toFar), len(gotFar), eosBound), true
 		}
 		if !bytes.Equal(gotFar, toFar) {
-			return fmt.Errorf("connection %d: %s wrote %d bytes and closed cleanly; the other peer received %d bytes before end-of-stream (%v)", i, cn.Closer, len(toFar), len(gotFar), e), false
+			return fmt.Errorf("connection %d: %s wrote %d bytes and closed cleanly; the other peer (reading from %d ms later, pausing %d us per read) received %d bytes before end-of-stream (%v)", i, cn.Closer, len(toFar), cn.FarDelayMs, cn.FarPauseUs, len(gotFar), e), false
 		}
 	case "dirty":
 		// the far side keeps writing towards the closer, which closes without reading
